@@ -39,7 +39,7 @@ theorem exec_fire_eq (cfg : Cfg) (n : Nat) (s : StR) (k : Nat) (id : Int) (r : R
       match lookupHook s.hooks k with
       | none => (s, [.ob (.fire k id r)])
       | some h =>
-        let r2 := exec cfg n { s with hooks := s.hooks.filter (fun p => p.1 != k) } (.act h)
+        let r2 := exec cfg n { s with hooks := s.hooks.filter (fun p => p.1 != k) } (.acts h)
         (r2.1, [.ob (.fire k id r), .hookBegin k] ++ r2.2 ++ [.hookEnd]) := rfl
 
 theorem exec_fireAll_nil (cfg : Cfg) (n : Nat) (s : StR) (r : Res) : exec cfg (n + 1) s (.fireAll [] r) = (s, []) := rfl
@@ -337,11 +337,12 @@ def need (s : StR) : Ev → Nat
   | .bytesIn chunk => s.core.reqs.length + (feed s.core.rbuf chunk).frames.length + 10
   | _ => s.core.reqs.length + 10
 
-theorem stepR_flat (cfg : Cfg) (s : StR) (e : Ev) (hh : NoHooks s) (h : SInv s.core) (fuel : Nat) (hf : need s e ≤ fuel) :
-    (stepRWith cfg fuel s (.flat e)).1 = { core := (step cfg s.core e).1, hooks := [] } ∧
+theorem stepR_flat (cfg : Cfg) (s : StR) (e : Ev) (hh : NoHooks s) (hst : s.stubborn = false) (h : SInv s.core) (fuel : Nat)
+    (hf : need s e ≤ fuel) :
+    (stepRWith cfg fuel s (.flat e)).1 = { core := (step cfg s.core e).1, hooks := [], stubborn := false } ∧
     plain (stepRWith cfg fuel s (.flat e)).2 = (step cfg s.core e).2 := by
   have hh' : s.hooks = [] := hh
-  have hs : ({ core := s.core, hooks := [] } : StR) = s := by cases s; simp_all
+  have hs : ({ core := s.core, hooks := [], stubborn := false } : StR) = s := by cases s; simp_all
   obtain ⟨n, rfl⟩ : ∃ n, fuel = n + 1 := ⟨fuel - 1, by simp [need] at hf; cases e <;> simp [need] at hf <;> omega⟩
   cases e with
   | make id ex =>
@@ -352,17 +353,17 @@ theorem stepR_flat (cfg : Cfg) (s : StR) (e : Ev) (hh : NoHooks s) (h : SInv s.c
     by_cases hd : s.core.reqs.any (fun r => r.id == id) = true
     · simp [stepRWith, exec, step, hd, hs, plain]
     · by_cases hc : s.core.closed = true
-      · simp [stepRWith, exec, step, hd, hc, hh', hfire, plain]
+      · simp [stepRWith, exec, step, hd, hc, hh', hst, hfire, plain]
       · cases hp : s.core.proto with
         | some conn =>
           by_cases hw : s.core.wfail = true
-          · simp [stepRWith, exec, step, hd, hc, hp, hw, hh', hfire, plain, sendObs, keepAfterSend]
+          · simp [stepRWith, exec, step, hd, hc, hp, hw, hh', hst, hfire, plain, sendObs, keepAfterSend]
           · cases ex <;> by_cases hl : s.core.losing = true <;>
-              simp [stepRWith, exec, step, hd, hc, hp, hw, hl, hh', hfire, plain, sendObs, keepAfterSend]
+              simp [stepRWith, exec, step, hd, hc, hp, hw, hl, hh', hst, hfire, plain, sendObs, keepAfterSend]
         | none =>
           by_cases hco : s.core.connector = .none
-          · simp [stepRWith, exec, step, hd, hc, hp, hco, hh', plain, plain_append, plain_obs, connect_, tryConnect, obs]
-          · simp [stepRWith, exec, step, hd, hc, hp, hco, hh', plain]
+          · simp [stepRWith, exec, step, hd, hc, hp, hco, hh', hst, plain, plain_append, plain_obs, connect_, tryConnect, obs]
+          · simp [stepRWith, exec, step, hd, hc, hp, hco, hh', hst, plain]
   | cancel id =>
     by_cases hany : s.core.reqs.any (fun r => r.id == id && !r.cancelled) = true
     · simp only [stepRWith, exec, step, hany, if_true]
@@ -370,7 +371,7 @@ theorem stepR_flat (cfg : Cfg) (s : StR) (e : Ev) (hh : NoHooks s) (h : SInv s.c
         have : (s.core.reqs.filter (fun r => r.id == id && !r.cancelled)).length ≤ s.core.reqs.length := List.length_filter_le _ _
         simp [need] at hf ⊢; omega
       rw [exec_fireAll cfg _ _ n _ (by exact hh) hlen]
-      simp [hh', plain_map_ob, List.map_map, Function.comp_def]
+      simp [hh', hst, plain_map_ob, List.map_map, Function.comp_def]
     · simp [stepRWith, exec, step, hany, hs, plain]
   | close =>
     by_cases hc : s.core.closed = true
@@ -386,26 +387,26 @@ theorem stepR_flat (cfg : Cfg) (s : StR) (e : Ev) (hh : NoHooks s) (h : SInv s.c
       | some conn =>
         simp only [stepRWith, exec, step, hc, hp, if_false]
         rw [hcl { s with core := { s.core with closed := true, losing := true, proto := some conn } } hh' rfl]
-        simp [hh', plain, plain_append, plain_obs]
+        simp [hh', hst, plain, plain_append, plain_obs]
       | none =>
         simp only [stepRWith, exec, step, hc, hp, if_false]
         cases hco : s.core.connector with
         | none =>
           simp only []
           rw [hcl { s with core := { s.core with closed := true, connector := .none, proto := none } } hh' rfl]
-          simp [hh', plain, plain_append, plain_obs]
+          simp [hh', hst, plain, plain_append, plain_obs]
         | attempt =>
           simp only []
           rw [hcl { s with core := { s.core with closed := true, connector := .stale, proto := none } } hh' rfl]
-          simp [hh', plain, plain_append, plain_obs]
+          simp [hh', hst, plain, plain_append, plain_obs]
         | backoff d =>
           simp only []
           rw [hcl { s with core := { s.core with closed := true, connector := .stale, proto := none } } hh' rfl]
-          simp [hh', plain, plain_append, plain_obs]
+          simp [hh', hst, plain, plain_append, plain_obs]
         | stale =>
           simp only []
           rw [hcl { s with core := { s.core with closed := true, connector := .stale, proto := none } } hh' rfl]
-          simp [hh', plain, plain_append, plain_obs]
+          simp [hh', hst, plain, plain_append, plain_obs]
   | connOk =>
     by_cases hatt : s.core.connector = .attempt
     · have hp : s.core.proto = none := by
@@ -437,7 +438,7 @@ theorem stepR_flat (cfg : Cfg) (s : StR) (e : Ev) (hh : NoHooks s) (h : SInv s.c
         exact hgen _ hun _
       simp only [List.nil_append]
       rw [hfilt, hflat]
-      exact ⟨by simp [hh'], plain_obs _⟩
+      exact ⟨by simp [hh', hst], plain_obs _⟩
     · simp [stepRWith, step, hatt, hs, plain]
   | bytesIn chunk =>
     cases hp : s.core.proto with
@@ -449,27 +450,27 @@ theorem stepR_flat (cfg : Cfg) (s : StR) (e : Ev) (hh : NoHooks s) (h : SInv s.c
         simp only [stepRWith, step, hp, hl, Bool.false_eq_true, if_false]
         rw [exec_frames cfg conn _ _ (n + 1) s hh hn]
         simp only [flatFrames, plain_obs]
-        split <;> (try split) <;> simp [hh']
-  | connFail => simp [stepRWith, hh', plain_obs]
-  | advance dt => simp [stepRWith, hh', plain_obs]
-  | lost => simp [stepRWith, hh', plain_obs]
-  | disconnect => simp [stepRWith, hh', plain_obs]
-  | updateMetadata a b => simp [stepRWith, hh', plain_obs]
-  | writeFail b => simp [stepRWith, hh', plain_obs]
+        split <;> (try split) <;> simp [hh', hst]
+  | connFail => simp [stepRWith, hh', hst, plain_obs]
+  | advance dt => simp [stepRWith, hh', hst, plain_obs]
+  | lost => simp [stepRWith, hh', hst, plain_obs]
+  | disconnect => simp [stepRWith, hh', hst, plain_obs]
+  | updateMetadata a b => simp [stepRWith, hh', hst, plain_obs]
+  | writeFail b => simp [stepRWith, hh', hst, plain_obs]
 
 
 /-- Without callbacks the re-entrant model IS the flat model: for every event list there is an amount of
     fuel from which on the observations (markers dropped) are those of `Afkak.BrokerClient.trace`. -/
-theorem traceR_flat (cfg : Cfg) (evs : List Ev) : ∀ (s : StR), NoHooks s → SInv s.core →
+theorem traceR_flat (cfg : Cfg) (evs : List Ev) : ∀ (s : StR), NoHooks s → s.stubborn = false → SInv s.core →
     ∃ N, ∀ fuel, N ≤ fuel →
       (traceRWith cfg fuel s (evs.map .flat)).map (fun t => plain t.2) = (trace cfg s.core evs).map (·.2) := by
   induction evs with
-  | nil => intro s _ _; exact ⟨0, fun _ _ => rfl⟩
+  | nil => intro s _ _ _; exact ⟨0, fun _ _ => rfl⟩
   | cons e es ih =>
-    intro s hh h
-    obtain ⟨N2, h2⟩ := ih { core := (step cfg s.core e).1, hooks := [] } rfl (sinv_step cfg s.core e h)
+    intro s hh hst h
+    obtain ⟨N2, h2⟩ := ih { core := (step cfg s.core e).1, hooks := [], stubborn := false } rfl rfl (sinv_step cfg s.core e h)
     refine ⟨max (need s e) N2, fun fuel hf => ?_⟩
-    have h1 := stepR_flat cfg s e hh h fuel (by omega)
+    have h1 := stepR_flat cfg s e hh hst h fuel (by omega)
     simp only [List.map_cons, traceRWith, trace]
     rw [h1.1, h1.2, h2 fuel (by omega)]
 
